@@ -100,7 +100,12 @@ func c03(ctx *core.Ctx) {
 		}
 		router := routerOf(ti)
 		r := ctx.Rand(ti, "table")
-		t := rt.GenTable(r, c03GenOpts(router))
+		o3 := c03GenOpts(router)
+		if m := ti % 40; m == 14 || m == 15 {
+			// table shapes beyond what the small tables reach (long templates, 33-40 services, long media lists, many conditions, 130 routes)
+			ctx.SetAdd("scaled_table_shapes", rt.Scale(&o3, ti/40))
+		}
+		t := rt.GenTable(r, o3)
 		ctx.Case(ti, "router="+router+" table="+core.JSON(t))
 		// permutations
 		k := 3
@@ -288,6 +293,10 @@ func c04(ctx *core.Ctx) {
 		r := ctx.Rand(ti, "table")
 		o := fullGenOpts(router)
 		o.MaxRootLen = 3
+		if m := ti % 40; m == 14 || m == 15 {
+			// table shapes beyond what the small tables reach (long templates, 33-40 services, long media lists, many conditions, 130 routes)
+			ctx.SetAdd("scaled_table_shapes", rt.Scale(&o, ti/40))
+		}
 		t := rt.GenTable(r, o)
 		ctx.Case(ti, "router="+router+" table="+core.JSON(t))
 		bo := rt.DefaultBuild(router)
@@ -498,6 +507,10 @@ func c14(ctx *core.Ctx) {
 			// the OPTIONS filter computes its Allow header with the regular-expression engine of RouterJSR311,
 			// whatever router the container uses: same restriction as for that router
 			o.NoWild = true
+		}
+		if m := ti % 40; m == 14 || m == 15 {
+			// table shapes beyond what the small tables reach (long templates, 33-40 services, long media lists, many conditions, 130 routes)
+			ctx.SetAdd("scaled_table_shapes", rt.Scale(&o, ti/40))
 		}
 		t := rt.GenTable(r, o)
 		ctx.Case(ti, "router="+router+" table="+core.JSON(t))
